@@ -114,6 +114,7 @@ int main(int argc, char **argv)
 		char key[64];
 		snprintf(key, sizeof(key), "exh:block=%d", vh_opt.proc);
 		vh_case_key(key);
+		vh_case_budget(1800);
 		for (uint64_t x = lo; x < hi; x++) {
 			check32((uint32_t)x);
 			if (vh_nviol >= VH_MAX_VIOL)
@@ -144,6 +145,7 @@ int main(int argc, char **argv)
 	} else {
 		/* sanitizer build: stratified sample of the functions + macros */
 		vh_case_key("asan-sample");
+		vh_case_budget(900);
 		vh_rng_t r;
 		vh_rng_seed(&r, vh_opt.seed, 16, 1 + vh_opt.proc);
 		uint64_t n = vh_opt.thorough ? (1ull << 24) : (1ull << 21);
